@@ -1,6 +1,6 @@
 // Native replay for the typed-header lemmas (property C16): write a header with the real writer of /repo, parse the text
 // with the real parser, compare, write again.
-// usage: hdr_rt cachecontrol <directive 0..11> <delta> | hdr_rt connection <0..2> | hdr_rt encoding <n>
+// usage: hdr_rt cachecontrol <directive 0..11> <delta> | hdr_rt connection <0..2> | hdr_rt encoding <n> | hdr_rt date <seconds since the epoch>
 // exit 0: the round trip holds on this value; exit 1: it does not; exit 3: usage
 #include <pistache/http_header.h>
 #include <pistache/http_defs.h>
@@ -32,6 +32,22 @@ int main(int argc, char** argv)
                 return 1;
             }
             if (timed(d) && ds[0].delta().count() != delta) { printf("REPRODUCED: delta %ld written as \"%s\" parses back as %ld\n", delta, text.c_str(), long(ds[0].delta().count())); return 1; }
+            std::ostringstream o2; r.write(o2);
+            if (o2.str() != text) { printf("REPRODUCED: second write \"%s\" differs from first \"%s\"\n", o2.str().c_str(), text.c_str()); return 1; }
+            return 0;
+        }
+        if (!strcmp(argv[1], "date")) {
+            auto tp = std::chrono::system_clock::from_time_t(time_t(atoll(argv[2])));
+            Header::Date w { FullDate(tp) };
+            std::ostringstream o1; w.write(o1);
+            std::string text = o1.str();
+            Header::Date r;
+            try { r.parse(text); }
+            catch (const std::exception& e) { printf("REPRODUCED: Date written as \"%s\" is rejected by the parser: %s\n", text.c_str(), e.what()); return 1; }
+            if (std::chrono::system_clock::to_time_t(r.fullDate().date()) != std::chrono::system_clock::to_time_t(tp)) {
+                printf("REPRODUCED: second %s written as \"%s\" parses back as second %lld\n", argv[2], text.c_str(), (long long)std::chrono::system_clock::to_time_t(r.fullDate().date()));
+                return 1;
+            }
             std::ostringstream o2; r.write(o2);
             if (o2.str() != text) { printf("REPRODUCED: second write \"%s\" differs from first \"%s\"\n", o2.str().c_str(), text.c_str()); return 1; }
             return 0;
